@@ -107,6 +107,10 @@ impl AofEngine {
             return Ok(());
         }
         
+        // A crash in the middle of an append leaves an unfinished frame at the end of the file: cut it off before
+        // appending, otherwise the first new entry lands inside it and nothing from there on can be read back
+        self.truncate_torn_tail()?;
+        
         let file = OpenOptions::new()
             .create(true)
             .append(true)
@@ -120,6 +124,29 @@ impl AofEngine {
         let mut writer = self.writer.lock().unwrap();
         *writer = Some(BufWriter::new(file));
         
+        Ok(())
+    }
+    
+    /// Truncate the file to its last complete entry if it ends in the beginning of one. Anything else that does not
+    /// parse (damage in the middle of the file) is left alone.
+    fn truncate_torn_tail(&self) -> Result<()> {
+        let data = match std::fs::read(&self.file_path) {
+            Ok(data) => data,
+            Err(_) => return Ok(()), // no file yet
+        };
+        let mut end = 0;
+        while end < data.len() {
+            match crate::protocol::parser::parse_resp_frame(&data[end..]) {
+                Ok(Some((_, used))) if used > 0 => end += used,
+                Ok(None) => {
+                    // the rest is the beginning of a frame that was never finished
+                    eprintln!("AOF: removing {} bytes of an unfinished entry at the end of the file", data.len() - end);
+                    OpenOptions::new().write(true).open(&self.file_path)?.set_len(end as u64)?;
+                    break;
+                }
+                _ => break,
+            }
+        }
         Ok(())
     }
     
